@@ -49,7 +49,10 @@ ASSUMPTIONS = ['ansatz A + Bx + Cx^2, x = (p - p_th) d^nu (property '
 REQUIRED_COUNTERS = ['datasets_analysed', 'orderings_compared',
                      'exact_count_datasets', 'binomial_datasets',
                      'datasets_with_out_of_codespace_trials',
-                     'datasets_with_A_above_half']
+                     'datasets_with_A_above_half',
+                     'datasets_touching_zero_or_one',
+                     'analyses_given_a_list_of_files',
+                     'best_fit_parameters_compared']
 SHARD_TIMEOUT = {'quick': 900, 'thorough': 3600}
 
 BOX = {'p_th': (0.03, 0.3), 'nu': (0.7, 1.6), 'A': (0.15, 0.7),
@@ -99,8 +102,24 @@ def draw(rng):
         if max(fe) - min(fe) < 0.02:
             continue
         drop = [int(x) for x in rng.integers(0, 3, size=len(ds))]
+        # some data sets touch the floor / ceiling: the largest code has
+        # exactly zero failures at the lowest rate (or only failures at the
+        # highest) while still lying on the ansatz
+        touch = str(rng.choice(['no', 'no', 'no', 'zero', 'one']))
+        if touch != 'no':
+            f = planted(ps, dmax, prm)
+            A2 = A - float(f.min()) if touch == 'zero' else \
+                A + (1.0 - float(f.max()))
+            prm2 = (p_th, nu, A2, B, C)
+            allf = np.array([planted(ps, d, prm2) for d in ds])
+            if not (0.1 <= A2 <= 0.9) or allf.min() < -1e-12 or \
+                    allf.max() > 1 + 1e-12:
+                touch = 'no'
+            else:
+                prm = prm2
+                drop[-1] = 0        # the largest code keeps its end points
         return {'prm': prm, 'ds': ds, 'ps': ps.tolist(), 'w': w,
-                'drop': drop}
+                'drop': drop, 'touch': touch}
     raise RuntimeError('could not draw a well-conditioned data set')
 
 
@@ -183,12 +202,18 @@ def write_dataset(rng, ds, root, mode, ooc=0.0):
     return orderings
 
 
-def analyse(path):
+def analyse(path, as_list=False):
     from panqec.analysis import Analysis
+    arg = path
+    if as_list:
+        # the way `panqec analyze` and scripts hand over results: a list of
+        # files (here: every file of the directory, in directory order)
+        arg = sorted(os.path.join(dp, f) for dp, _, fs in os.walk(path)
+                     for f in fs)
     with warnings.catch_warnings():
         warnings.simplefilter('ignore')
         with contextlib.redirect_stdout(io.StringIO()):
-            an = Analysis(path, verbose=False)
+            an = Analysis(arg, verbose=False)
             th = an.thresholds
     if len(th) != 1:
         return None, f'{len(th)} threshold rows for one family'
@@ -203,7 +228,10 @@ def run_block(task, out):
         mode = 'exact' if (j + task['i']) % 3 != 2 else 'binomial'
         root = tempfile.mkdtemp(prefix='c16-', dir=base)
         p_th, nu, A, B, C = ds['prm']
-        desc = {'mode': mode, 'p_th': round(p_th, 6), 'nu': round(nu, 4),
+        if ds.get('touch', 'no') != 'no':
+            out.count('datasets_touching_zero_or_one')
+        desc = {'mode': mode, 'touch': ds.get('touch', 'no'),
+                'p_th': round(p_th, 6), 'nu': round(nu, 4),
                 'A': round(A, 4), 'B': round(B, 4), 'C': round(C, 4),
                 'distances': ds['ds'], 'n_rates': len(ds['ps']),
                 'half_window': round(ds['w'], 6)}
@@ -217,9 +245,11 @@ def run_block(task, out):
                 out.count('datasets_with_A_above_half')
             ords = write_dataset(rng, ds, root, mode, ooc)
             rows = []
-            for o in ords:
+            for oi, o in enumerate(ords):
                 try:
-                    row, err = analyse(o)
+                    row, err = analyse(o, as_list=(oi == 1))
+                    if oi == 1:
+                        out.count('analyses_given_a_list_of_files')
                 except Exception as e:
                     where = panqec_frame(e)
                     if where is None:
@@ -255,6 +285,24 @@ def run_block(task, out):
                 out.violation(f'{mech}/threshold-off',
                               f'p_th_fss={est:.6f} vs planted {p_th:.6f}: '
                               f'{err:.3f} of the half-window (tol {tol})', w)
+            fp = np.asarray(r['fss_params'], dtype=float)
+            if mode == 'exact' and r['fit_status'] == 'success':
+                out.count('best_fit_parameters_compared')
+                perr = abs(fp[0] - p_th) / ds['w'] if np.isfinite(fp[0]) \
+                    else float('inf')
+                if not (perr <= TOL_EXACT):
+                    out.violation(f'{mech}/best-fit-threshold-off',
+                                  f'fss_params[0]={fp[0]:.6f} (the best-fit '
+                                  f'threshold) vs planted {p_th:.6f}: '
+                                  f'{perr:.3f} of the half-window',
+                                  dict(w, fss_params=fp))
+                elif not np.allclose(fp, [p_th, nu, A, B, C], rtol=0.1,
+                                     atol=0.05):
+                    out.violation(f'{mech}/best-fit-parameters-off',
+                                  f'fss_params={np.round(fp, 4).tolist()} '
+                                  'vs planted '
+                                  f'{[round(x, 4) for x in ds["prm"]]}',
+                                  dict(w, fss_params=fp))
             if not (r['p_th_fss_left'] <= est <= r['p_th_fss_right']):
                 out.violation(f'{mech}/estimate-outside-own-interval',
                               f'p_th_fss {est} not in [{r["p_th_fss_left"]},'
